@@ -20,7 +20,8 @@ CHECKS = {
              "configurations ([[locations]] with and without catch-all) are decided by Router.tla replayed through the real "
              "start_server; the PyOpenSSL layer's close (close_notify then TCP close) by the TlsPump replay."
              " Logging faults: the k-th call into the protocol's logger raises, for every k of random executions - at most one well-formed, untorn response may reach the client (checks/logfault.py)."
-             " Handler statuses arrive as ints, floats, Decimals, Fractions and IntEnum members, responses as GeminiResponse, subclasses with their own constructors and attribute bags; Titan request lines with extreme / signed / non-numeric declared sizes are answered exactly once, at the latest when the timer fires (titan_declared_sizes).",
+             " Handler statuses arrive as ints, floats, Decimals, Fractions and IntEnum members, responses as GeminiResponse, subclasses with their own constructors and attribute bags; Titan request lines with extreme / signed / non-numeric declared sizes are answered exactly once, at the latest when the timer fires (titan_declared_sizes)."
+             " Handlers and components also end in exceptions that do not derive from Exception (CancelledError, GeneratorExit, an application BaseException), and return bodies that are neither text nor bytes.",
         note="Trusted: TLC; the fake transport's fidelity to asyncio's transport contract; scripted handler/middleware "
              "behaviour classes. The stdlib-TLS backend is covered by live-socket checks of C06/C15, not here."),
     "C04": dict(
@@ -34,7 +35,8 @@ CHECKS = {
              "behaviours replayed against the protocol factory captured from the real start_server over real TLS sessions in "
              "memory, with look-alike certificates and changing peer addresses."
              " The peer identity (none / certificate / look-alike with another key, three addresses) rotates from one connection to the next while the request bytes of a configuration stay identical (state shared across connections shows); RefusalNotPreempted: the request timer never pre-empts a slow component's refusal."
-             " A client certificate the certificate library cannot interpret (X.509 version field 3) never gets the verdict for 'no certificate' in the assembled-chain replay.",
+             " A client certificate the certificate library cannot interpret (X.509 version field 3) never gets the verdict for 'no certificate' in the assembled-chain replay."
+             " Client certificates the certificate library cannot load (X.509 version field 3, truncated, not a certificate) at the protocol level and through the assembled chain: consulted with sha256 of what was presented, or refused (62) without consulting - never 'no certificate'.",
         note="Trusted: as C01. The real RateLimiter/AccessControl/CertificateAuth components are bound by C05/C09/C10."),
     "C07": dict(
         engine="ServerConn", design="8 C07, 5.1",
@@ -74,7 +76,8 @@ CHECKS = {
              "embedded at several bit offsets into real IPv4/IPv6 addresses and decided by the real AccessControl and by "
              "ServerConfig.from_toml -> get_access_control_config (thorough: also the chain the real start_server assembles, "
              "behind the real protocol); random policies with up to 4 entries per list are judged by TLC against Admit."
-             " One long-lived AccessControl and one start_server-assembled chain decide every address of a policy twice, in shuffled order, with IPv6 embeddings beyond /64; Assembly.tla (AclAsConfigured) binds the `nauyaca serve` front end.",
+             " One long-lived AccessControl and one start_server-assembled chain decide every address of a policy twice, in shuffled order, with IPv6 embeddings beyond /64; Assembly.tla (AclAsConfigured) binds the `nauyaca serve` front end."
+             " Scoped list entries (fe80::1%3): start-up refused, or honoured for exactly that link.",
         note="Trusted: TLC; the embedding arithmetic of checks/c09.py (model bits -> real address bits); allow_list=[] is "
              "left undecided (grey)."),
     "C02": dict(
@@ -87,7 +90,8 @@ CHECKS = {
              "byte-level spellings (backslash, NUL, control bytes, long names, double encoding) are judged by sentinel; "
              "disagreements are judged by the observation spec."
              " Requests with a tree change in flight: after the k-th pathlib call of a request a link is atomically re-pointed outside the root, for every k."
-             " Names beginning with dots (..draft.gmi, ..data/, ...) are requested literally, encoded and with the dots encoded.",
+             " Names beginning with dots (..draft.gmi, ..data/, ...) are requested literally, encoded and with the dots encoded."
+             " Path.resolve()'s behaviour at a symbolic-link loop is modelled (LoopAnchor / LexWalk / HasLink: the link met twice plus the rest of the request, normalised lexically); a second instance enumerates trees in which a link runs in a circle with paths of up to four segments (MC_StaticServeLoop.cfg, 270 k states), the pre-repair behaviour is kept as deviation DevLoopLexical, which TLC must catch with Safe.",
         note="Trusted: TLC; sentinel-based identification of what was served; the POSIX file system of the sandbox. Newline "
              "translation of read_text (CRLF files are served with LF) is outside the property as stated and not judged."),
     "C05": dict(
@@ -103,7 +107,8 @@ CHECKS = {
              "start_server (Chain.tla) decide that each connection is judged on its own certificate. "
              "Thorough: real TLS on the PyOpenSSL backend in memory with RSA/EC/Ed25519 client certificates."
              " Assembly.tla (CertRulesAsConfigured, FlagNeverIgnored) binds the `nauyaca serve` front end: the file's rules reach start_server whatever CLI / ENV overrides are present."
-             " Tokens with an undecodable segment cancelled by '..' and with an encoded backslash.",
+             " Tokens with an undecodable segment cancelled by '..' and with an encoded backslash."
+             " Paths of 4-6 segments beyond the enumerated instance, every one judged by the observation specification.",
         note="Trusted: TLC; sentinel identification; capsule without symlinks (C02 covers links)."),
     "C13": dict(
         engine="ClientConn", design="8 C13, 5.6, Appendix D",
@@ -140,7 +145,8 @@ CHECKS = {
              "received are compared; 80 (400) random histories of up to 40 operations generated by the driver are recorded and "
              "validated by TLC against TofuTrace (conformance of every step, every invariant at every step)."
              " Further history actions: CallRacing, CallStoreFault(k), ContextCycle (client reused after its async-with block); the two readable certificates are look-alikes (same subject / issuer and serial number)."
-             " ClientCli.tla: every option combination of `nauyaca get` run through the real command - trust-on-first-use is on unless --no-trust is given (TofuAsRequested). Tofu.ReopenFault: another client is created on the same store while a statement of opening it fails; the pins stay.",
+             " ClientCli.tla: every option combination of `nauyaca get` run through the real command - trust-on-first-use is on unless --no-trust is given (TofuAsRequested). Tofu.ReopenFault: another client is created on the same store while a statement of opening it fails; the pins stay."
+             " Store operations (trust, revoke, import) spell host names in changing capitalisation; the pin projection is case-insensitive.",
         note="Trusted: TLC; scripted peers supply the DER through ssl_object.getpeercert; a DER blob the X.509 parser rejects "
              "stands for certificates OpenSSL would accept but cryptography cannot read."),
     "C12": dict(
@@ -165,7 +171,8 @@ CHECKS = {
              "judged by its own reference walk; the pin check of every hop under rotations and across calls "
              "is decided by the Tofu history replay run with C16's formulas."
              " Every URL has one spelling per run (canonical or not: explicit default port, empty path, empty query, upper-case host), used by the caller and every redirecting server."
-             " Redirect answers use statuses 30, 31, 32, 35, 39; ClientCli.tla: --max-redirects / --no-redirects reach the client as given; random graphs over 7 URLs are judged by TLC with RedirectObs.tla's reference walk.",
+             " Redirect answers use statuses 30, 31, 32, 35, 39; ClientCli.tla: --max-redirects / --no-redirects reach the client as given; random graphs over 7 URLs are judged by TLC with RedirectObs.tla's reference walk."
+             " Redirect targets spelling the scheme GEMINI:// / Gemini:// are gemini redirects.",
         note="Trusted: TLC; scripted peers; URLs are opaque strings in the model."),
     "C06": dict(
         engine="TlsPump", design="8 C06, 5.2, Appendix H",
@@ -179,7 +186,8 @@ CHECKS = {
              "PyOpenSSL) started by the real start_server, bodies sampled densely around 2^14 / 2^16 up to several MB, str and "
              "bytes bodies, static files, slow and bursty readers, byte-identical streams on both backends."
              " Logging faults (every call into the protocol's logger, for every k) must not add anything after a complete response; the idle reader pauses 7 s (14 s thorough)."
-             " Handlers answer as GeminiResponse, as a subclass with its own constructor, or as an attribute bag, in rotation.",
+             " Handlers answer as GeminiResponse, as a subclass with its own constructor, or as an attribute bag, in rotation."
+             " A reader that pauses 33 s (longer than asyncio's TLS shutdown allowance) on both backends: the standard-library backend cuts the response - recorded as known finding C06-stdlib-shutdown-timeout, printed by every run.",
         note="Trusted: TLC; the stdlib ssl client as TLS peer; byte comparison is the driver's oracle (the model knows lengths and "
              "order, not byte values)."),
     "C20": dict(
@@ -206,7 +214,8 @@ CHECKS = {
              "before/after snapshot of the upload directory and its surroundings is projected onto the model's change record "
              "and judged by TLC (formulas on the observation + agreement with Handle)."
              " Handlers are built directly or through ServerConfig / TOML get_upload_handler() with token lists containing blank entries; pairs of simultaneous uploads to one path (worker threads lined up write-write-rename-rename if the handler uses them)."
-             " Fault kind dropbox (0300 directories owned by the server's uid: storing works, reading the directory does not); declared media types that read like patterns (*, text/*, ?ext/gemini).",
+             " Fault kind dropbox (0300 directories owned by the server's uid: storing works, reading the directory does not); declared media types that read like patterns (*, text/*, ?ext/gemini)."
+             " Upload.tla models the same loop behaviour of Path.resolve() (second slot M -> M, MC_UploadLoop.cfg, deviation DevLoopLexical caught by OnlyInside); layouts in which the store's temporary name is already taken (link to outside, dangling link, somebody else's file); paths of 3-5 segments judged by the observation specification.",
         note="Trusted: TLC; POSIX semantics of the sandbox file system; directories created for an upload are not counted as files.",
         technique="TLA+ spec + TLC model checking; OS-level storage-fault enumeration on the real handler, judged by a TLC observation spec"),
     "C17": dict(
@@ -245,7 +254,8 @@ CHECKS = {
              "what was observed is judged by TLC (UrlObs: AcceptOK with host/port/path/query intact, RejectOK = 59, Refuse50, "
              "CalledOnlyIfAcceptable); unconstrained byte strings are checked for the implication only. Wire state machine: the "
              "ServerConn model check + edge replay run with C08's formulas (OnlyValidReachHandler, SegIndep, Progress)."
-             " TlsPump's PlainComplete / PlainInOrder (a request written as several TLS records, coalesced with the end of the handshake) are part of this check; oversized lines are built so that the remainder after a cut point is itself a well-formed request line.",
+             " TlsPump's PlainComplete / PlainInOrder (a request written as several TLS records, coalesced with the end of the handshake) are part of this check; oversized lines are built so that the remainder after a cut point is itself a well-formed request line."
+             " TitanLine.tla: size spelling x fragment position x user-info x path kind through the real protocol with a recording chain and upload handler (OnlyValidReachHandler, ValidNotRefused; deviation DevLenientInt must be caught); Url.tla kinds v6junk (characters around an IPv6 literal) and ctl (raw control characters / spaces), the byte-level oracle judges lines with control characters too.",
         note="Grey (checked only for 'called => not must-reject'): upper-case scheme, empty user-info, empty fragment, raw control "
              "characters and spaces inside the line (urlparse strips or keeps them)."),
     "C19": dict(
@@ -255,7 +265,8 @@ CHECKS = {
              "validate_url and a GeminiClientProtocol -> server-protocol round trip; idempotence, same host/port/path/query, "
              "acceptance of the normal form and the components the server parses are judged by TLC (UrlObs)."
              " The request line of the wire clause is what the real GeminiClient._get_single sends for the caller's spelling."
-             " ClientCli.UrlAsGiven: ten spellings (upper / mixed-case scheme and host, ports, IPv6, empty path, reserved characters) through the real `nauyaca get` denote what was typed.",
+             " ClientCli.UrlAsGiven: ten spellings (upper / mixed-case scheme and host, ports, IPv6, empty path, reserved characters) through the real `nauyaca get` denote what was typed."
+             " TitanWire.tla (RoundTrip, ContentNeverMangled): what GeminiClient.upload puts on the wire is parsed by the server to what the caller asked for, or upload() refuses (';', whitespace in URL / token / media type).",
         note="No temporal content (stated in DESIGN.md): the specification contributes the systematic product and the expected "
              "components. One known finding: empty path at exactly the length limit.",
         technique="TLA+ grammar model enumerated by TLC as case generator and oracle; library and wire round trip judged by a TLC observation spec"),
